@@ -16,6 +16,10 @@ from . import env
 OUT = os.path.join(env.VERIF, "out")
 REPLAYS = os.path.join(OUT, "replays")
 EVIDENCE = os.path.join(env.VERIF, "evidence")
+if os.path.realpath(env.REPO) != "/repo":
+    # a run against a scratch copy (sensitivity self-test, seeded changes) must not overwrite the evidence
+    # of the real tree
+    EVIDENCE = os.path.join(env.VERIF, "out", "evidence-scratch")
 KNOWN = os.path.join(env.VERIF, "known_findings.json")
 
 REAL = ["simulator.Simulator/EventQueue", "workload.Task/TaskGraph/Workload/JobGraph",
